@@ -39,7 +39,7 @@ pub fn run(ctx: &Ctx) -> Outcome {
             }
         }
     }
-    for n in gen::products(&g.upto(ctx.tier.pick(1, 2))) {
+    for n in gen::products(&g.upto(2)) {
         bases.push(Base { node: n, multi: 0 });
     }
     for n in gen::random_patterns(ctx.seed, ctx.tier.pick(300, 6_000), false, 5, 10) {
@@ -48,7 +48,7 @@ pub fn run(ctx: &Ctx) -> Outcome {
     let texts = gen::texts(&gen::ALPHA_C01, 3);
     let fj = ctx.known.listed("C03", "FJ");
     let seed = ctx.seed;
-    let acc = par_run(&bases, true, Some(50_000_000), |i, b, acc| {
+    let acc = par_run(&bases, true, Some(2_000_000), |i, b, acc| {
         let p = &b.node;
         if let Some(why) = excluded(p) {
             acc.count(&format!("excluded:{}", why));
@@ -148,7 +148,7 @@ pub fn run(ctx: &Ctx) -> Outcome {
     crate::diff::run_witnesses(ctx, "C03", "F1", &mut acc);
     let mut out = Outcome::new(acc);
     out.distinct_nontrivial = out.acc.distinct;
-    out.rule = format!("base patterns: all trees of <= {} nodes with every single injection site (before/after every node at any depth){}; 25 contexts x E({}) with every site; seeded random trees of 5-10 nodes with 1-3 random sites each. Each (base, variant) pair is run on all texts over {{a,b,c,é,\\n,-}} up to length 3 from every offset and captures_from_pos must be identical. Non-trivial = distinct pairs whose route differs (wrapped vs VM) or whose multiset of delegated sub-patterns differs, and that matched at least once.", all_sites_upto, if ctx.tier == Tier::Quick { "; a seeded quarter of the 4-node trees with one random site" } else { "" }, ctx.tier.pick(1, 2));
+    out.rule = format!("base patterns: all trees of <= {} nodes with every single injection site (before/after every node at any depth){}; 25 contexts x E(2) with every site; seeded random trees of 5-10 nodes with 1-3 random sites each. Each (base, variant) pair is run on all texts over {{a,b,c,é,\\n,-}} up to length 3 from every offset and captures_from_pos must be identical. Non-trivial = distinct pairs whose route differs (wrapped vs VM) or whose multiset of delegated sub-patterns differs, and that matched at least once.", all_sites_upto, if ctx.tier == Tier::Quick { "; a seeded quarter of the 4-node trees with one random site" } else { "" });
     out.assumptions = vec!["patterns with an unbounded repeat of a nullable body are left out (finding F1: the two engines differ there)".into()];
     let wv = out.acc.get("pairs:wrapped-vs-vm");
     let dd = out.acc.get("pairs:different-delegates");
